@@ -8,8 +8,11 @@ Stubs: in-memory FS behind c.prepend_zdir; print captured; note_utils.get_note_b
 get_notes_by_id answer from a harness-chosen index; init_from_template, subprocess and the .zoq
 refresh are recorded (external programs / C16 / C12 are outside).
 """
+import itertools
 import os
 from pathlib import Path
+
+from crosshair.tracers import NoTracing
 
 from vlib import hx
 from vlib.hx import V
@@ -246,6 +249,27 @@ def build_line(pre_i, w1, p1, w2, w3):
     return PREFIXES[pre_i] + " ".join(words)
 
 
+def _action(pre_i, w1, p1, w2, w3, zoq, opt, idx_i):
+    """the obligation on one concrete choice: '' or what is wrong"""
+    line = build_line(pre_i, w1, p1, w2, w3)
+    out, rc, calls, fs = run_real(line, zoq, OPTIONS[opt], idx_i)
+    w_out, w_rc, w_calls = o_action(line, zoq, OPTIONS[opt], INDEXES[idx_i], fs, 3)
+    if not all(ln.split(" ")[0] in ("EDIT", "SEARCH", "PROMPT", "ECHO") for ln in out):
+        return "not a protocol message"
+    if (out, rc, calls) != (w_out, w_rc, w_calls):
+        return "answer differs from the oracle"
+    # relational clause: choosing option k opens the same thing as a line holding only the k-th target
+    ts = o_targets(line, zoq)
+    k = OPTIONS[opt]
+    if len(ts) >= 2 and k is not None and (k == -1 or 1 <= k <= len(ts)):
+        t = ts[-1] if k == -1 else ts[k - 1]
+        single = "see " + t + " there"
+        out1, rc1, calls1, _ = run_real(single, zoq, None, idx_i)
+        if (out1, rc1, calls1) != (out, rc, calls):
+            return "option k differs from a line with only the k-th target"
+    return ""
+
+
 def action(pre_i: int, w1: int, p1: int, w2: int, w3: int, zoq: bool, opt: int, idx_i: int) -> bool:
     """
     pre: 0 <= pre_i < len(PREFIXES) and 0 <= w1 < len(WORDS) and p1 in P1_MENU and w2 in W2_MENU
@@ -254,19 +278,40 @@ def action(pre_i: int, w1: int, p1: int, w2: int, w3: int, zoq: bool, opt: int, 
     pre: THOROUGH or idx_i == 0 or (p1 == 0 and w3 == 0)
     post: _
     """
-    line = build_line(pre_i, w1, p1, w2, w3)
-    out, rc, calls, fs = run_real(line, zoq, OPTIONS[opt], idx_i)
-    w_out, w_rc, w_calls = o_action(line, zoq, OPTIONS[opt], INDEXES[idx_i], fs, 3)
-    if not all(ln.split(" ")[0] in ("EDIT", "SEARCH", "PROMPT", "ECHO") for ln in out):
-        return V(False)
-    if (out, rc, calls) != (w_out, w_rc, w_calls):
-        return V(False)
-    # relational clause: choosing option k opens the same thing as a line holding only the k-th target
-    ts = o_targets(line, zoq)
-    k = OPTIONS[opt]
-    if len(ts) >= 2 and k is not None and (k == -1 or 1 <= k <= len(ts)):
-        t = ts[-1] if k == -1 else ts[k - 1]
-        single = "see " + t + " there"
-        out1, rc1, calls1, _ = run_real(single, zoq, None, idx_i)
-        return V((out1, rc1, calls1) == (out, rc, calls))
-    return V(True)
+    # TRACED family: the real runner executes under CrossHair's tracing (0.25 s per path: run on the pinned prefixes only)
+    return V(_action(pre_i, w1, p1, w2, w3, zoq, opt, idx_i) == "")
+
+
+# ------------------------------------------------------------------ the whole menu product, one table index
+# every (prefix, first word, punctuation, second word, third word, page kind, option, index content) of the tier's menus
+ADM = list(itertools.product(range(len(PREFIXES)), range(len(WORDS)), P1_MENU, W2_MENU, W3_MENU, (False, True), OPT_MENU,
+                             range(len(INDEXES))))
+PIN_N = os.environ.get("XH_N", "")
+
+
+def _n_ok(n):
+    if not PIN_N:
+        return True
+    lo, hi = PIN_N.split("-")
+    return int(lo) <= n < int(hi)
+
+
+def conc_bits(x, nbits):
+    """realise a symbolic int WHILE TRACING by binary search (nbits decisions)"""
+    v = 0
+    for b in reversed(range(nbits)):
+        if x >= v + (1 << b):
+            v += 1 << b
+    return v
+
+
+def action_n(n: int) -> bool:
+    """
+    pre: 0 <= n < len(ADM) and _n_ok(n)
+    post: _
+    """
+    # the solver chooses the table index; the real runner then runs for ADM[n] with tracing off (12 ms instead of 250 ms
+    # per choice), so the WHOLE menu product is covered
+    n = conc_bits(n, 20)
+    with NoTracing():
+        return V(_action(*ADM[n]) == "")
